@@ -108,7 +108,11 @@ class PostgresImpl(SqlImpl):
             return sqa.cast(val, sqa.BigInteger)
         elif fn.op in (ops.sum, ops.cum_sum):
             # postgres sometimes switches types for `sum`
-            return sqa.cast(val, args[0].type)
+            arg_type = args[0].type
+            if isinstance(arg_type, sqa.types.NullType):
+                # the argument is an untyped SQL function (GREATEST, LEAST, FLOOR, ...)
+                arg_type = cls.sqa_type(types.without_const(fn.dtype()))
+            return sqa.cast(val, arg_type)
         return val
 
     @classmethod
